@@ -353,12 +353,28 @@ def impl_handwritten(case):
         return {"raises": core.exc_name(e)}
 
 
+OPT_NAMES = ("emit_default_doc", "emit_default_prop", "parse_original_whitespace", "infer_type")
+
+
+def opts_of(k):
+    """the k-th of the 16 option combinations of the docstring parser (k = 0b0011 is the default one)"""
+    return {n: bool(k >> i & 1) for i, n in enumerate(OPT_NAMES)}
+
+
+def opts_tag(o):
+    return "".join("1" if o[n] else "0" for n in OPT_NAMES)
+
+
 def impl_docstring(d):
+    """d: the docstring (default options) or (docstring, options)"""
     import cdd.class_.parse  # noqa: F401
     from cdd.docstring.parse import docstring as parse
 
+    opts = {}
+    if not isinstance(d, str):
+        d, opts = d
     try:
-        return {"ir": strip_ir(parse(d))}
+        return {"ir": strip_ir(parse(d, **opts))}
     except Exception as e:  # noqa
         return {"raises": core.exc_name(e)}
 
@@ -436,6 +452,24 @@ def run(chk: core.Check) -> int:
             chk.failure({"parser": "docstring", "style": g["style"], "clause": clause, "detail": detail.split(":")[-1] if clause == "typ-unparsable" else None,
                          "has_empty_typ": g["has_empty_typ"] if clause in ("typ-empty", "typ-unparsable") else None},
                         "docstring parser (%s): %s %s" % (g["style"], clause, detail), {"fn": "docstring", "doc": g["doc"]})
+    # (1b) the same docstrings under every combination of the parser's options (emit_default_doc, emit_default_prop, parse_original_whitespace, infer_type),
+    #      cycled deterministically, plus entries that have a type but no description text
+    bare = [":param x:\n:type x: ```int```\n:param y: the y\n", ":type x: ```int```\n", "Summary.\n\n:param x:\n:param y: the y. Defaults to 5\n:type y: ```int```\n:return:\n:rtype: ```int```\n",
+            "Summary.\n\nArgs:\n  x (int):\n  y (int): the y. Defaults to 5\n", "Summary.\n\nParameters\n----------\nx : int\ny : int\n    the y. Defaults to 5\n"]
+    docs_o = [(g["doc"], opts_of(k % 16), g["style"], g["has_empty_typ"]) for k, g in enumerate(gens)] + [(t, opts_of(k), "handwritten-bare", False) for t in bare for k in range(16)]
+    res = core.guarded_map(impl_docstring, [(d, o) for d, o, _, _ in docs_o], 10.0)
+    n_acc_o = 0
+    for (d, o, style, het), r in zip(docs_o, res):
+        ok = bool(r) and "ir" in r
+        chk.count(("doc-opts", d, opts_tag(o)), ok)
+        if not ok:
+            continue
+        n_acc_o += 1
+        for clause, detail in wf_problems(unstrip(r["ir"])):
+            chk.failure({"parser": "docstring", "style": style, "clause": clause, "detail": detail.split(":")[-1] if clause == "typ-unparsable" else None,
+                         "has_empty_typ": het if clause in ("typ-empty", "typ-unparsable") else None, "opts": opts_tag(o)},
+                        "docstring parser (%s, options %s): %s %s" % (style, o, clause, detail), {"fn": "docstring", "doc": d, "opts": o})
+    accepted["docstring-under-16-option-combinations"] = n_acc_o
     # (2) arbitrary text
     base = repo_docstrings()
     texts = ["".join(t) for k in range(3) for t in itertools.product(ALPHABET, repeat=k)] + [mutate(rng, rng.choice(base), ALPHABET) for _ in range(n)]
@@ -556,7 +590,7 @@ def run(chk: core.Check) -> int:
 def replay(path: str) -> int:
     d = json.loads(Path(path).read_text())["replay"]
     if d["fn"] == "docstring":
-        r = impl_docstring(d["doc"])
+        r = impl_docstring((d["doc"], d["opts"]) if d.get("opts") else d["doc"])
         sig = None
     elif d["fn"] == "function":
         r = impl_function(d["g"])
